@@ -36,7 +36,7 @@ COMPONENTS_REAL = ["geneticengine.random.sources.NativeRandomSource", "geneticen
 COMPONENTS_STUB = ["set iteration order (OrderedSimSet) in process; real in the fresh-interpreter stratum", "time.monotonic_ns (SimClock)", "fitness (structural hash of the program)"]
 ASSUMPTIONS = ["wall-clock budgets are excepted by the property; TimeBudget only appears under the simulated clock with a limit that never fires"]
 
-FEAT = features(list=2, annlist=2, union=1, tuple=1, nested=1, standalone=1, cls=8, refined=3, weights=1, dependent=2, future_annotations=1)
+FEAT = features(list=2, annlist=2, union=1, tuple=1, nested=1, standalone=1, cls=8, refined=3, weights=1, dependent=2, future_annotations=1, concrete_start=1)
 
 
 def budget(tier):
@@ -98,7 +98,12 @@ def run_search(spec, cfg, built=None, grammar=None, clock=None, shared=None):
     mk = {"grow": lambda: I.MaxDepthDecider(r, g, depth), "full": lambda: I.FullDecider(r, g, depth),
           "pigrow": lambda: I.PositionIndependentGrowDecider(r, g, depth), "progressive": lambda: I.ProgressivelyTerminalDecider(r, g)}
     k = cfg["rep"]
-    if k == "tree":
+    # the genotype-based representations hold no run state (their deciders read from the genotype at mapping time): a caller may
+    # hand the SAME representation object to a second search (history, `shared`)
+    rep = shared.get("rep") if (shared is not None and k != "tree" and grammar is not None) else None
+    if rep is not None:
+        pass
+    elif k == "tree":
         rep = TreeBasedRepresentation(g, mk[cfg["decider"]]())
     elif k == "ge":
         rep = GrammaticalEvolutionRepresentation(g, mk[cfg["decider"]](), gene_length=cfg["gene_length"])
@@ -108,6 +113,8 @@ def run_search(spec, cfg, built=None, grammar=None, clock=None, shared=None):
         rep = DynamicStructuredGrammaticalEvolutionRepresentation(g, depth)
     else:
         rep = StackBasedGGGPRepresentation(g, gene_length=max(64, cfg["gene_length"]), failures_limit=50)
+    if shared is not None and k != "tree":
+        shared["rep"] = rep
     problem = SingleObjectiveProblem(ff, minimize=cfg["minimize"])
 
     class Checks(SearchBudget):
@@ -196,7 +203,8 @@ def run(ctx):
     ctx.sample = {"config": cfg, "order_seeds": [s1, s2]}
     sig_cfg = f"{cfg['rep']}/{cfg['algo']}"
 
-    shared = {} if H.draw(2) else None  # run A and run B receive the same library budget object
+    H.draw(2)
+    shared = {}  # run A and run B receive the same library budget object and (genotype-based kinds) the same representation object
 
     def go(order, built=None, grammar=None, shared=None):
         set_order_seed(order)
@@ -286,6 +294,32 @@ def run(ctx):
                                     f"a search on classes whose field {c['name']}.{c['fields'][i][0]} was re-declared after an earlier extraction and search differs from "
                                     f"the same seeded search on fresh classes re-declared the same way before any extraction, at trace entry {i_}: {x!r} vs {y!r}")
                         return
+        # (f) history: an extraction that the library rejects (a negative weight was declared) precedes the corrected declaration
+        weighted = [c for c in spec["classes"] if c.get("weight") is not None and c["kind"] in ("data", "plain")]
+        if weighted and ctx.run_index % 4 == 1:
+            from geneticengine.grammar.decorators import weight as declare_weight
+
+            v = weighted[H.draw(len(weighted))]
+            bZ = Built(spec)
+            built.append(bZ)
+            declare_weight(-2.0)(bZ.cls[v["name"]])
+            try:
+                bZ.extract()
+                ctx.stat("history:negative-weight-accepted")
+            except Exception:
+                ctx.stat("history:rejected-extraction")
+            declare_weight(v["weight"])(bZ.cls[v["name"]])
+            set_order_seed(s1)
+            reset_gene_read_cap(200000)
+            with installed_clock(clock):
+                tZ, _, _ = run_search(spec, cfg, bZ, None, clock)
+            ctx.faults["carry_over"] += 1
+            if tZ != tA:
+                i_, x, y = first_diff(tZ, tA)
+                ctx.violate(f"C08/history-dependent/after-rejected-extraction/{sig_cfg}",
+                            f"a search on classes that went through a rejected extraction (negative weight on {v['name']}, then corrected) differs from the "
+                            f"same seeded search on fresh classes, at trace entry {i_}: {x!r} vs {y!r}")
+                return
         # (d) fresh interpreters
         if ctx.run_index % 25 == 3 or (cfg["algo"] == "gp" and cfg["rep"] != "tree" and ctx.run_index % 5 == 1):
             envs = fresh_traces(spec, cfg, 3 if ctx.tier == "quick" else 6)
